@@ -47,6 +47,7 @@ def configs(tier, seed):
     out.append(('grid/nearly-uniform', dict(kind='grid-near')))
     out.append(('spaces/pairs', dict(kind='spaces')))
     out.append(('sets/pairs', dict(kind='sets')))
+    out.append(('reported-gaps', dict(kind='gaps')))
     out.append(('element/creation', dict(kind='creation')))
     out.append(('element/pspace-creation', dict(kind='pcreation')))
     for sk in ('rn2x3', 'rn4', 'discr2x3', 'wrn2x3', 'arn4', 'cn3'):
@@ -355,5 +356,42 @@ def case(ctx, kind, a=None, b=None, nd=1, n=2, sk=None):
         pc = odl.ProductSpace(odl.rn(2), 3, weighting=2.0)
         ctx.fact('pspace-getitem-keeps-constant-weight', getattr(pc[0:2].weighting, 'const', None) == 2.0,
                  'weighting of the sub-space: %r' % (pc[0:2].weighting,))
+        return
+    if kind == 'gaps':
+        # clauses of the property on which the current tree is known to fail (each is a known finding; kept as
+        # live assertions so that a repair -- or a change of the failure -- is noticed)
+        import warnings
+        w = np.arange(1., 7.).reshape(2, 3)
+        spw = odl.rn((2, 3), weighting=w)
+        for idx, shp in ((0, (2,)), ([1, 0], (3, 2))):
+            try:
+                sub = spw.byaxis[idx]
+                ok = sub.shape == shp
+            except Exception as e:
+                ok, sub = False, '%s: %s' % (type(e).__name__, e)
+            ctx.fact('tensor-byaxis/array-weighting/%s' % (idx,), ok, 'got %s' % (sub,))
+        xi = odl.tensor_space(1, 'int64').element([2 ** 53 + 1])
+        ctx.fact('int-scalar-indexing-exact', int(xi[0]) == int(xi.asarray()[0]), 'x[0] = %r, asarray()[0] = %r' %
+                 (xi[0], xi.asarray()[0]))
+        P = odl.ProductSpace(odl.rn(3), 2)
+        xp = P.element([[1, 2, 3], [4, 5, 6]])
+        ctx.fact('pspace-element-tuple-indexing/[:,0]', np.shape(xp[:, 0].asarray()) == np.shape(xp.asarray()[:, 0]),
+                 'shapes %s vs %s' % (np.shape(xp[:, 0].asarray()), np.shape(xp.asarray()[:, 0])))
+        try:
+            ok = np.array_equal(np.asarray(xp[:, 1:]), xp.asarray()[:, 1:])
+            det = ''
+        except Exception as e:
+            ok, det = False, '%s: %s' % (type(e).__name__, e)
+        ctx.fact('pspace-element-tuple-indexing/[:,1:]', ok, det)
+        cp = odl.CartesianProduct(odl.RealNumbers(), odl.RealNumbers())
+        try:
+            r = cp.element([1, 2, 3])
+            ok, det = False, 'returned %r for a 3-sequence' % (r,)
+        except (ValueError, TypeError) as e:
+            ok, det = True, ''
+        ctx.fact('cartesian-product-element-rejects-wrong-length', ok, det)
+        d = odl.uniform_discr([0, 0], [1, 2], (2, 4), weighting=1.0)
+        ctx.fact('byaxis_in-keeps-an-explicit-weighting', d.byaxis_in[1] == odl.uniform_discr(0, 2, 4, weighting=1.0),
+                 'got weighting %r' % (d.byaxis_in[1].weighting,))
         return
     raise ValueError(kind)
